@@ -66,6 +66,23 @@ static void run_comb() {
     int total = cb.combine([](int a, int b) { return a + b; }); int want = 0; for (int i = 0; i < pre + n; i++) want += 100 + i; if (total != want) vf_fail("combine() = %d, expected %d", total, want);
     vf_outcome("ok inits=%d", inits);
 }
+// clear() / copy assignment (which clears first): afterwards the next local() of a thread that used the container before is a FIRST use again
+template <class E> static void run_clear() { int mode = (int)vf_param_int("mode", 0);   // 0 clear(), 1 copy assignment from an empty container, 2 copy assignment from a container used by another thread
+    E a([] { ++inits; return Cell{0, {0, 0, 0}}; }), other([] { ++inits; return Cell{0, {0, 0, 0}}; }); static int phase, arrived; phase = arrived = 0; Cell* again[2] = {nullptr, nullptr};
+    if (mode == 2) { int t = spawn([&] { other.local().tag = 77; }); vf_join(t); }
+    auto ids = gated(2, nullptr, [&](int i) { Cell& c = a.local(); c.tag = 100 + i; arrived++; while (phase < 1) vf_block_on(&phase);
+        bool ex = true; Cell& d = a.local(ex); if (ex) vf_fail("after %s thread %d's next local() reports an existing element (tag %d): it was handed an element of the cleared contents", mode ? "copy assignment" : "clear()", i, d.tag);
+        if (d.tag != 0) vf_fail("after %s thread %d's fresh element carries tag %d", mode ? "copy assignment" : "clear()", i, d.tag); d.tag = 200 + i; again[i] = &d;
+        bool ex2 = false; Cell& e = a.local(ex2); if (!ex2 || &e != &d) vf_fail("second local() after the fresh one differs"); });
+    vf_liveness(1); vf_gate_open(); while (arrived < 2) vf_yield();
+    int before = inits; if (mode == 0) a.clear(); else a = other;
+    if (mode != 2 && a.size() != 0) vf_fail("size() %zu right after clear", a.size());
+    vf_window(1); phase = 1; vf_wake(&phase); join_all(ids); vf_window(0);
+    size_t want = mode == 2 ? 3 : 2; if (a.size() != want) vf_fail("size() %zu after two threads used the container again (expected %zu)", a.size(), want);
+    if (inits - before != 2) vf_fail("%d initialiser calls for two first uses after %s", inits - before, mode ? "copy assignment" : "clear()");
+    std::multiset<int> tags; for (auto it = a.begin(); it != a.end(); ++it) tags.insert(it->tag); if (tags.count(200) != 1 || tags.count(201) != 1 || tags.size() != want) vf_fail("iteration after re-use visits %zu elements", tags.size());
+    if (again[0] == again[1]) vf_fail("two threads share one element after re-use");
+    vf_outcome("clear mode=%d ok", mode); }
 // swap / move assignment: the thread-to-element mapping travels with the contents
 template <class E> static void run_swap() { int mode = (int)vf_param_int("mode", 0);   // 0 swap, 1 move assignment
     E a([] { ++inits; return Cell{0, {0, 0, 0}}; }), b([] { ++inits; return Cell{0, {0, 0, 0}}; }); static int phase; Cell* first[2] = {nullptr, nullptr};
@@ -81,6 +98,8 @@ template <class E> static void run_swap() { int mode = (int)vf_param_int("mode",
     vf_outcome("ok mode=%d", mode); }
 static void scenario() { const char* k = vf_param("kind", "ets");
     if (streq(k, "swap")) { run_swap<tbb::enumerable_thread_specific<Cell>>(); return; }
+    if (streq(k, "clear")) { run_clear<tbb::enumerable_thread_specific<Cell>>(); return; }
+    if (streq(k, "clear_key")) { run_clear<tbb::enumerable_thread_specific<Cell, tbb::cache_aligned_allocator<Cell>, tbb::ets_key_per_instance>>(); return; }
     if (streq(k, "swap_key")) { run_swap<tbb::enumerable_thread_specific<Cell, tbb::cache_aligned_allocator<Cell>, tbb::ets_key_per_instance>>(); return; }
     if (streq(k, "ets")) run_ets<tbb::enumerable_thread_specific<Cell>>();
     else if (streq(k, "ets_park")) run_ets<tbb::enumerable_thread_specific<Cell, ParkAlloc<Cell>>>();
